@@ -15,6 +15,21 @@ WITNESS_CLOSURE = {
 }
 
 
+WITNESS_ITER = {
+    "id": "C11-method-call-comparison-on-iterator",
+    "what": "comparison patterns expand to a method call (`(value).eq(&x)`): on a root value whose type is itself an Iterator (a Range) "
+            "Iterator::eq is found first, so `== (1..3)` is accepted on a struct field of type Range<i32> and rejected (E0277) as the root pattern",
+    "decl": "#[derive(Debug)] struct RS { r: std::ops::Range<i32> }",
+    "field": "let v = RS { r: 1..3 }; assert_struct!(v, RS { r: == (1..3) });",
+    "root": "let v = 1..3; assert_struct!(v, == (1..3));",
+}
+
+
+def iter_programs():
+    return [e2e.PRELUDE + WITNESS_ITER["decl"] + "\nfn main() { std::panic::set_hook(Box::new(|_| {})); run_case(\"c\", || { %s }); }\n" % WITNESS_ITER[k]
+            for k in ("field", "root")]
+
+
 def closure_cells():
     # the same closure text in the reference position and at the root
     return [("field", "|x| *x > 6"), ("root", "|x| *x > 6"), ("field", "|x| x > 6"), ("root", "|x| x > 6")]
@@ -92,6 +107,19 @@ def run(res):
         else:
             failing += 1
             res.violation("failing-input", WITNESS_CLOSURE["what"], {"outcomes": res.streams["closure_witness"]})
+    # comparison on an iterator-typed root value: known finding, replayed
+    out = e2e.compile_many(iter_programs(), run=True, tag="c11i")
+    e2e.cleanup("c11i")
+    oi = [matrix.outcome(o) for o in out]
+    res.streams["iterator_comparison_witness"] = {"field": oi[0], "root": oi[1]}
+    if oi[0] != "pass":
+        raise vlib.CheckError("the reference program of the iterator-comparison witness does not pass: %s" % oi[0])
+    if oi[1] != oi[0]:
+        if WITNESS_ITER["id"] in kf and oi[1].startswith("reject"):
+            res.known.append(WITNESS_ITER["what"])
+        else:
+            failing += 1
+            res.violation("failing-input", WITNESS_ITER["what"] + " (now: %s)" % oi[1], {"program": iter_programs()[1], "outcomes": oi})
     res.streams["matrix"] = {"cells": len(results), "rows": len(rows), "positions": len(matrix.POSITIONS),
                              "non_uniform_cells": failing, "known_finding_cells": sum(known_hits.values()),
                              "outcomes": {k: sum(1 for r in results if r[1].split(":")[0] == k) for k in ("pass", "fail", "reject", "crash")}}
